@@ -20,7 +20,7 @@ RULE = ("harness-generated template datasets (rank 1-3, extents 1-6, coordinate 
         "grid_mapping) x variables of f8/f4/i8/i4/i2 with and without _FillValue and random masks x every DataType x MissingValue "
         "combination; write cases with 1-4 results (float64/float32/int64/int32, nomask / all-false / random masks) written together; "
         "distinct by (case kind, rank, stored type, DataType, MissingValue class, has-fill, n results, mask classes)")
-REQUIRED_COUNTERS = ["plain_rereads_of_the_same_variable", "tool_runs_through_a_linked_command_file", "large_grids_written", "reads_compared", "type_check_cases", "writes_read_back", "template_copies_compared", "union_mask_checks", "writes_over_an_older_dataset", "other_type_name_spellings", "written_results_made_by_commands"]
+REQUIRED_COUNTERS = ["netcdf_extra_cases", "plain_rereads_of_the_same_variable", "tool_runs_through_a_linked_command_file", "large_grids_written", "reads_compared", "type_check_cases", "writes_read_back", "template_copies_compared", "union_mask_checks", "writes_over_an_older_dataset", "other_type_name_spellings", "written_results_made_by_commands"]
 ASSUMPTIONS = ["don't-care: real data equal to the fill value, result names clashing with dimension names, compression settings, plain ndarray results",
                "Fuzzy: data within [-1,1] must come back unchanged, data beyond +-1.5 must be rejected, whatever is returned lies in [-1,1]; the width "
                "of the tolerance band in between is not documented and not judged", "the parameter is called MissingValue in the code (MissingVal in the docs)"]
@@ -51,6 +51,8 @@ def cases(ctx):
     # those next to the link
     for i in range(ctx.n(8, 300)):
         yield {"kind": "toollink", "rseed": rng.randrange(10 ** 9)}
+    for i in range(ctx.n(12, 600)):
+        yield {"kind": "extras", "rseed": rng.randrange(10 ** 9)}
     # grids of more than a million cells, written and read back (block-wise writers / readers)
     for i in range(ctx.n(2, 16)):
         j = i * ctx.nshards + ctx.shard
@@ -172,6 +174,72 @@ def run_bigwrite(ctx, case):
         ctx.fail("roundtrip:large-grid:read-back-differs", {"shape": list(shape), "cells_with_other_mask": diff})
 
 
+def run_extras(ctx, case):
+    """(a) fields of different rank in one EEMSWrite are refused and nothing is written; (b) a packed variable (small integers
+    with scale_factor / add_offset) is read as the numbers it stands for; (c) a model whose read fails one of the library's own
+    checks, run through the tool: non-zero exit status and the report."""
+    from netCDF4 import Dataset
+    from click.testing import CliRunner
+    from mpilot.cli.mpilot import main
+    rng = random.Random(case["rseed"])
+    d = ctx.scratch()
+    ny, nx = rng.randint(2, 4), rng.randint(2, 5)
+    with Dataset(os.path.join(d, "t.nc"), "w") as ds:
+        for nm, n_ in (("time", 1), ("y", ny), ("x", nx)):
+            ds.createDimension(nm, n_)
+            v = ds.createVariable(nm, "f8", (nm,))
+            v[:] = numpy.arange(n_) * 1.0
+        tv = ds.createVariable("tmpl", "f8", ("time", "y", "x"))
+        tv[:] = numpy.arange(ny * nx, dtype="f8").reshape(1, ny, nx)
+        pk = ds.createVariable("packed", "i2", ("y", "x"))
+        pk.scale_factor = rng.choice([0.25, 0.01, 0.5])
+        pk.add_offset = rng.choice([0.0, 10.0, -2.5])
+        want_packed = (numpy.arange(ny * nx).reshape(ny, nx) - 3) * pk.scale_factor + pk.add_offset
+        pk[:] = want_packed
+        ng = ds.createVariable("neg", "f8", ("y", "x"))
+        ng[:] = numpy.arange(ny * nx, dtype="f8").reshape(ny, nx) - 2.5
+    ctx.count("netcdf_extra_cases")
+    ctx.feature(("extras", ny, nx))
+    # (a)
+    prog = arr.new_program(arr.NC_LIBS, working_dir=d)
+    arr.standin(prog, "T3", numpy.ma.array(numpy.arange(ny * nx, dtype="f8").reshape(1, ny, nx)), fuzzy=False)
+    arr.standin(prog, "T2", numpy.ma.array(numpy.arange(ny * nx, dtype="f8").reshape(ny, nx)), fuzzy=False)
+    w = arr.invoke(prog, "EEMSWrite", "W", {"OutFileName": "mixed.nc", "OutFieldNames": ["T3", "T2"], "DimensionFileName": "t.nc", "DimensionFieldName": "tmpl"})
+    if w.ok or w.err != "MixedArrayShapes" or os.path.exists(os.path.join(d, "mixed.nc")):
+        ctx.fail("write:fields-of-different-rank:%s" % ("accepted" if w.ok else "file-written" if w.err == "MixedArrayShapes" else "raises-" + (w.inner() or w.err)), {"shapes": [[1, ny, nx], [ny, nx]]})
+        return
+    # (b)
+    for dt in (None, "Float"):
+        args = {"InFileName": "t.nc", "InFieldName": "packed"}
+        if dt:
+            args["DataType"] = dt
+        r = arr.invoke(arr.new_program(arr.NC_LIBS, working_dir=d), "EEMSRead", "P", args)
+        ctx.count("reads_compared")
+        if not r.ok:
+            ctx.fail("read:packed-variable:raises-%s" % (r.inner() or r.err), {"error": repr(r.exc)[:200]})
+            return
+        if r.value.shape != (ny, nx) or not numpy.allclose(numpy.ma.getdata(r.value), want_packed, rtol=0, atol=1e-9) or numpy.ma.getmaskarray(r.value).any():
+            ctx.fail("read:packed-variable:value", {"got": numpy.ma.getdata(r.value).reshape(-1)[:4].tolist(), "want": want_packed.reshape(-1)[:4].tolist(), "scale_factor": float(pk.scale_factor) if False else None})
+            return
+    # (c)
+    which = case["rseed"] % 3
+    line = ['A = EEMSRead(InFileName = "t.nc", InFieldName = neg, DataType = "Positive Float")', 'A = EEMSRead(InFileName = "t.nc", InFieldName = tmpl, DataType = Fuzzy)',
+            'A = EEMSRead(InFileName = "t.nc", InFieldName = nowhere)'][which]
+    fp = os.path.join(d, "model.mpt")
+    with open(fp, "w") as f:
+        f.write(line + "\nB = Sum(InFieldNames = [A, A])\n")
+    try:
+        res = CliRunner(mix_stderr=False).invoke(main, ["eems-netcdf", fp])
+    except TypeError:
+        res = CliRunner().invoke(main, ["eems-netcdf", fp])
+    try:
+        etxt = res.stderr
+    except Exception:
+        etxt = res.output
+    if res.exit_code == 0 or "Problem" not in etxt:
+        ctx.fail("tool:failed-check-of-the-netcdf-library:%s" % ("exit-status-0" if res.exit_code == 0 else "no-report"), {"check": ["positive", "fuzzy", "no-such-variable"][which], "exit": res.exit_code, "stderr": etxt[-200:]})
+
+
 def run_toollink(ctx, case):
     from netCDF4 import Dataset
     from click.testing import CliRunner
@@ -219,6 +287,8 @@ def run_toollink(ctx, case):
 def run_case(ctx, case):
     if case["kind"] == "toollink":
         return run_toollink(ctx, case)
+    if case["kind"] == "extras":
+        return run_extras(ctx, case)
     if case["kind"] == "bigwrite":
         return run_bigwrite(ctx, case)
     return run_read(ctx, case) if case["kind"] == "read" else run_write(ctx, case)
